@@ -239,7 +239,8 @@ func (e *Engine) funcsForProperty(prop string) []string {
 			add(b.Name)
 		}
 	}
-	if prop == "C11" {
+	// C11 (lock discipline) and C12 (lock order / lock balance: no deadlock on the way to Close) sweep every function
+	if prop == "C11" || prop == "C12" {
 		var all []string
 		for n, fn := range e.funcs {
 			if fn.Synthetic != "" || n == "init" {
@@ -360,7 +361,13 @@ type PropRun struct {
 	SolverSec float64
 	ByBackend map[string]int
 	Bytes     int
+	XChecked  int
+	XAgreed   int
+	XDisagree []string
 }
+
+// crossCheckOn: thorough tier — every query refuted by one solver is re-run on a second one.
+var crossCheckOn bool
 
 func (e *Engine) runProperty(prop string, tmp string, timeout time.Duration) *PropRun {
 	pr := &PropRun{Prop: prop, Obs: map[string]*Obligation{}, Reports: map[string]*FuncReport{}, Lib: map[string]bool{}, Used: map[string]bool{}, ByBackend: map[string]int{}}
@@ -398,6 +405,9 @@ func (e *Engine) runProperty(prop string, tmp string, timeout time.Duration) *Pr
 	}
 	pr.Queries = len(mine)
 	vs := discharge(tmp, mine, timeout)
+	if crossCheckOn {
+		pr.XChecked, pr.XAgreed, pr.XDisagree = crossCheck(tmp, vs, 5*time.Second, runtime.NumCPU())
+	}
 	if os.Getenv("GOBV_SLOW") != "" {
 		for _, v := range vs {
 			if v.Secs > 2 {
@@ -518,7 +528,9 @@ func cmdCheck(args []string) int {
 	defer os.RemoveAll(tmp)
 	timeout := 10 * time.Second
 	if *tier == "thorough" {
+		// thorough: longer budgets, every refuted query re-checked by a second solver
 		timeout = 60 * time.Second
+		crossCheckOn = true
 	}
 	pr := e.runProperty(*prop, tmp, timeout)
 	known := loadKnownFindings()
@@ -607,6 +619,12 @@ func cmdCheck(args []string) int {
 	if coverFail > 0 && exit == 0 {
 		exit = 2
 	}
+	for _, d := range pr.XDisagree {
+		fmt.Printf("HARNESS-ERROR: solvers disagree: %s\n", d)
+		if exit == 0 {
+			exit = 2
+		}
+	}
 	writeEvidence(e, pr, *prop, *tier, seed, len(want)-vanished, discharged, nviol, covers, notAdmitted, samples, time.Since(t0).Seconds())
 	fmt.Printf("%s: %d/%d admitted obligations discharged, %d violations, %d functions, %d queries, solver %.1fs, wall %.1fs\n",
 		*prop, discharged, len(want), nviol, len(pr.Funcs), pr.Queries, pr.SolverSec, time.Since(t0).Seconds())
@@ -680,6 +698,10 @@ func writeEvidence(e *Engine, pr *PropRun, prop, tier string, seed, obligations,
 		"solver_time_s":                      pr.SolverSec,
 		"smt_bytes":                          pr.Bytes,
 		"covers_checked":                     covers,
+		"cross_checked_by_second_solver":     pr.XChecked,
+		"second_solver_agreed":               pr.XAgreed,
+		"second_solver_undecided":            pr.XChecked - pr.XAgreed - len(pr.XDisagree),
+		"solver_disagreements":               len(pr.XDisagree),
 		"obligations_generated_not_admitted": notAdmitted,
 		"samples":                            samples,
 		"bounded":                            []string{},
